@@ -7,12 +7,12 @@ CLAIMED = {
  "C08": dict(level="fault_enumeration", ref="DESIGN.md section 4 C08",
    text="Seeded workloads (object graphs x preconditions x store/mode x I/O schedules); for each, a deterministic recording pass counts every store operation / zip member / pickle call of save(), then the history is re-executed with an exception injected at sampled (quick) or EVERY (thorough) position; after each step a reference model of the allowed target states (absent, unreadable, bit-identical old, complete old, complete new) is checked by loading the target in a restart, plus sibling-tree hashes, staging leaks, write-once immutability and recovery by the next clean save. Sampling over workloads/schedules, exhaustive over fault positions per workload in the thorough tier.",
    note="Trusts: zarr's _put is atomic (write-temp + rename); simulated executor runs each blocking call atomically; Exception-type faults at the operations the property names plus an injected Ctrl-C (BaseException) at the synchronous zip-assembly seams; pre-states include foreign files/dirs, earlier objects, hard-linked snapshots, symlinked targets and '..' behind symlinked parents (a link's destination counts as part of the target); completeness judged against a fault-free save+load of the same object in the same run.",
-   technique="deterministic simulation: virtual-time single-thread zarr event loop + fault-position sweep over recorded store/zip/pickle operations, reference model of allowed durable states"),
+   technique="deterministic simulation: virtual-time single-thread zarr event loop + fault-position sweep over recorded store/zip/pickle operations (one-shot and sticky/persistent ENOSPC-EIO faults, lost/landed/torn zip members, injected Ctrl-C), scratch HOME and symlink/hard-link/tilde/dot-dot target spellings, reference model of allowed durable states"),
 }
 CLAIMED["C01"] = dict(level="exploration", ref="DESIGN.md section 4 C01",
    text="Seeded search over object graphs (swarm of value kinds, sizes, tricky names) x both stores x compression levels x modes x preconditions x I/O schedules: save under the simulated zarr loop, restart (expectation rebuilt from the JSON spec, freed memory poisoned, sampled loads in a process forked before the graph existed), load, exact structural comparison incl. attribute-name sets, second generation fixed point and zip-vs-dir agreement. Sampling, not enumeration: a clean run is evidence over the explored graphs/schedules only.",
    note="Trusts the structural comparison in qsim/graphs.py (exact dtype/shape/bytes, container kinds, attribute sets; numeric-value comparison only where the property allows it). Generator restrictions are listed in the evidence assumptions.",
-   technique="deterministic simulation: seeded object-graph workloads under a virtual-time zarr loop with seeded I/O completion/listing order, restart-then-compare oracle (same process, forked process with poisoned memory, fresh interpreter with another PYTHONHASHSEED), second-generation fixed point, tuning-knob randomisation")
+   technique="deterministic simulation: seeded object-graph workloads under a virtual-time zarr loop with seeded I/O completion/listing order, restart-then-compare oracle (same process, forked process with poisoned memory, fresh interpreter with another PYTHONHASHSEED), second-generation fixed point, live object mutated in place between two saves, tuning-knob randomisation")
 CLAIMED["C14"] = dict(level="exploration", ref="DESIGN.md section 4 C14",
    text="Seeded search over attribute-nested object graphs (names repeated across levels) x skip sets (present/absent names at any depth, lists of types incl. a base class) x stores x I/O schedules; six save/load histories (skip at save, at load, split, second generation, by type) are executed under the simulated zarr loop and each result is compared with a pruning reference model applied to the unskipped round trip; confluence save-skip == load-skip is checked pairwise.",
    note="Trusts graphs.equal and the pruning model (attribute paths removed by name at every attribute-nested level; isinstance for types on the original values). Load-time type skipping and AutoSerialize objects inside containers are outside the property and not generated.",
